@@ -159,6 +159,51 @@ fn check_pattern(case: &(PatSpec, Option<usize>, bool), run: &mut Run) -> Result
     Ok(())
 }
 
+/// The rule's value for one pattern of a definition (None: no reference parse).
+fn expected_priority(p: &PatSpec, is_skip: bool) -> Option<usize> {
+    if let Some(e) = p.priority {
+        return Some(e);
+    }
+    if p.kind == PatKind::Token && !is_skip {
+        return Some(2 * p.lit.value().len());
+    }
+    let (text, unicode, icase) = pattern_regex(p, is_skip)?;
+    let h = parse_hir(&text, unicode, icase).ok()?;
+    Some(rule(&h))
+}
+
+/// Whole definitions (several skips, tokens and regexes side by side): every pattern of an accepted definition is one
+/// leaf of the graph, and that leaf carries the pattern's own priority - the rule's value or the explicit one - whatever
+/// stands next to it.
+fn check_def(def: &DefSpec, run: &mut Run) -> Result<(), String> {
+    let d = derive_def(def);
+    run.eval(1);
+    if d.panic.is_some() || !d.errors.is_empty() {
+        run.count("multi_pattern_defs_not_accepted", 1);
+        return Ok(());
+    }
+    let Some(g) = d.graph else { return Ok(()) };
+    run.count("multi_pattern_defs_accepted", 1);
+    let leaves = def.leaves();
+    if g.leaves.len() != leaves.len() {
+        return Err(format!("the definition has {} patterns but the graph was built from {} leaves: patterns do not keep their own priorities", leaves.len(), g.leaves.len()));
+    }
+    for (i, (p, variant)) in leaves.iter().enumerate() {
+        let Some(expected) = expected_priority(p, variant.is_none()) else {
+            run.count("reference_parse_failed", 1);
+            continue;
+        };
+        if g.leaves[i].priority != expected {
+            return Err(format!("in this definition pattern {} has priority {}, the rule gives {}", g.leaves[i].display, g.leaves[i].priority, expected));
+        }
+    }
+    if def.skips.len() >= 2 {
+        run.count("multi_pattern_defs_with_two_or_more_skips", 1);
+        run.nontrivial(fnv(d.rust.as_bytes()));
+    }
+    Ok(())
+}
+
 fn check_pair(def: &DefSpec, run: &mut Run) -> Result<(), String> {
     // which variant holds the token
     let tok_variant = def.variants.iter().position(|v| v[0].kind == PatKind::Token).unwrap();
@@ -240,7 +285,10 @@ pub fn main(args: &Args) -> i32 {
     if let Some(path) = &args.replay {
         let v: serde_json::Value = serde_json::from_str(&std::fs::read_to_string(path).unwrap()).unwrap();
         let mut scratch = Run::new("C09", "quick", 0, "");
-        let res = if v.get("pair").is_some() {
+        let res = if v.get("whole_def").is_some() {
+            let def: DefSpec = serde_json::from_value(v["def"].clone()).unwrap();
+            check_def(&def, &mut scratch)
+        } else if v.get("pair").is_some() {
             let def: DefSpec = serde_json::from_value(v["def"].clone()).unwrap();
             check_pair(&def, &mut scratch)
         } else {
@@ -321,6 +369,37 @@ pub fn main(args: &Args) -> i32 {
             DriveResult::Abort(m) => {
                 eprintln!("aborted: {m}");
                 code = 2;
+            }
+        }
+    }
+    if code == 0 {
+        // whole definitions: the lexing family (skips, tokens, regexes, explicit and default priorities) and the
+        // definitions that ship with the repository
+        run.frozen = false;
+        let report = |def: &DefSpec, msg: String, run: &mut Run| {
+            run.violations = 1;
+            report_violation("C09", &args.replay_dir, &json!({"property": "C09", "tier": "G", "whole_def": true, "def": def, "rendered_rust": model::prep::render(def), "findings": [{"property": "C09", "what": msg}]}));
+        };
+        for h in model::harvest::harvest() {
+            if let Err(msg) = check_def(&h.def, &mut run) {
+                report(&h.def, msg, &mut run);
+                code = 1;
+                break;
+            }
+        }
+        if code == 0 {
+            match drive(&model::gen::lexing_defs(), cases / 2, args.seed ^ 0xC09B, 600, &mut run, |d, run| check_def(d, run)) {
+                DriveResult::Pass => {}
+                DriveResult::Fail(def) => {
+                    let mut scratch = Run::new("C09", "quick", 0, "");
+                    let msg = check_def(&def, &mut scratch).err().unwrap_or_default();
+                    report(&def, msg, &mut run);
+                    code = 1;
+                }
+                DriveResult::Abort(m) => {
+                    eprintln!("aborted: {m}");
+                    code = 2;
+                }
             }
         }
     }
